@@ -487,7 +487,7 @@ func (p c02) leafrefs(c *core.Ctx, idx int) {
 	r := c.Rand
 	targets := []struct{ typ, format string }{{"type int32;", "int32"}, {"type string;", "string"}, {"type tt;", "uint16"}, {"type enumeration { enum a; }", "enumeration"}, {"type boolean;", "boolean"}}
 	t := targets[r.Intn(len(targets))]
-	variant := r.Intn(15)
+	variant := r.Intn(16)
 	var body, extra string
 	mods := map[string]string{}
 	nExp := 1
@@ -536,6 +536,17 @@ func (p c02) leafrefs(c *core.Ctx, idx int) {
 			body = "  container c0 { leaf tgt { type int32; } leaf x { type ul; } }\n  container c1 { leaf tgt { type string; } leaf x { type ul; } }\n"
 		}
 		nExp = 2
+	case 15: // in a grouping of an imported module: the prefix of the path is that module's, under which this module imports another one
+		tt := t.typ
+		if strings.Contains(tt, "tt;") {
+			tt = "type uint16;"
+		}
+		mods["tgtmod"] = fmt.Sprintf("module tgtmod {\n  namespace \"urn:tgtmod\";\n  prefix tm;\n  revision 2020-01-01;\n  leaf tgt { %s }\n}\n", tt)
+		mods["decoy"] = "module decoy {\n  namespace \"urn:decoy\";\n  prefix dc;\n  revision 2020-01-01;\n  leaf tgt { type binary; }\n}\n"
+		mods["lib"] = "module lib {\n  namespace \"urn:lib\";\n  prefix lib;\n  import tgtmod { prefix t; }\n  revision 2020-01-01;\n" +
+			"  grouping g { leaf x { type leafref { path \"/t:tgt\"; } } }\n}\n"
+		extra = "  import lib { prefix l; }\n  import decoy { prefix t; }\n"
+		body = "  container c { uses l:g; }\n"
 	case 5: // into an imported module
 		tt := t.typ
 		if strings.Contains(tt, "tt;") {
@@ -547,15 +558,17 @@ func (p c02) leafrefs(c *core.Ctx, idx int) {
 	}
 	td := "  typedef tt { type uint16; }\n"
 	hdr := "module m {\n  namespace \"urn:m\";\n  prefix m;\n"
-	if variant == 5 {
+	if variant == 5 || variant == 15 {
 		hdr += extra
 		extra = ""
 	}
 	text := hdr + "  revision 2020-01-01;\n" + td + extra + body + "}\n"
 	mods["m"] = text
 	all := text
-	if mods["imp"] != "" {
-		all += "--- imp ---\n" + mods["imp"]
+	for _, other := range []string{"imp", "lib", "tgtmod", "decoy"} {
+		if mods[other] != "" {
+			all += "--- " + other + " ---\n" + mods[other]
+		}
 	}
 	c.SetSample(map[string]interface{}{"family": "leafref", "text": all})
 	c.Shape("leafref/v%d/%s", variant, t.format)
@@ -564,7 +577,7 @@ func (p c02) leafrefs(c *core.Ctx, idx int) {
 	if c.Guard("load", func() { m, err = c02load(mods) }) {
 		return
 	}
-	vname := []string{"relative", "forward", "absolute-into-list", "leafref-to-leafref", "typedef-in-grouping-x2", "imported-module", "out-of-a-case", "inside-nested-choice", "two-up-from-a-case", "grouping-used-at-two-target-types", "out-of-two-choice-levels", "out-of-three-shorthand-levels", "two-up-thru-two-choices", "typedef-leafref-at-two-target-types", "leafref-member-of-typedef-union"}[variant]
+	vname := []string{"relative", "forward", "absolute-into-list", "leafref-to-leafref", "typedef-in-grouping-x2", "imported-module", "out-of-a-case", "inside-nested-choice", "two-up-from-a-case", "grouping-used-at-two-target-types", "out-of-two-choice-levels", "out-of-three-shorthand-levels", "two-up-thru-two-choices", "typedef-leafref-at-two-target-types", "leafref-member-of-typedef-union", "prefix-of-the-grouping's-module"}[variant]
 	if err != nil {
 		c.Violate("leafref/load-error/"+vname, "%v\n%s", err, all)
 		return
